@@ -139,12 +139,19 @@ impl Log {
 /// stable mismatch is reported.
 fn scan_disk(l: &mut LogInner) -> DiskSnap {
     let mut snap = DiskSnap::default();
-    let rd = match std::fs::read_dir(&l.dir) { Ok(r) => r, Err(_) => return snap };
-    for e in rd.flatten() {
-        let name = e.file_name().to_string_lossy().to_string();
-        if !name.ends_with(".piece") {
-            continue;
+    // where under its start directory the client keeps them is its own business: walk the tree
+    let mut entries = vec![];
+    let mut stack = vec![l.dir.clone()];
+    while let Some(d) = stack.pop() {
+        let rd = match std::fs::read_dir(&d) { Ok(r) => r, Err(_) => continue };
+        for e in rd.flatten() {
+            let name = e.file_name().to_string_lossy().to_string();
+            if name.ends_with(".piece") { entries.push(e); }
+            else if e.file_type().map(|t| t.is_dir()).unwrap_or(false) && stack.len() < 64 { stack.push(e.path()); }
         }
+    }
+    for e in entries {
+        let name = e.file_name().to_string_lossy().to_string();
         let md = match e.metadata() { Ok(m) => m, Err(_) => continue };
         if md.is_dir() { continue; } // an obstacle put there by the harness (disk fault injection)
         let key = (md.len(), md.modified().unwrap_or(std::time::UNIX_EPOCH));
